@@ -376,6 +376,53 @@ func runC07(r *rt.Runner) {
 			c.Nontrivial(file, func() string { return head(file, 500) })
 		})
 	}
+	// very many blocks of one kind: the tables hold every entry of every block,
+	// however many there are (more than 65536 entries of one kind here)
+	nBig := r.N(7, 28)
+	for k := 0; k < nBig; k++ {
+		k := k
+		r.Case("many-blocks", func(c *rt.C) {
+			rng := c.Rand()
+			kind := []string{"cidchar", "cidrange", "bfchar", "bfrange", "notdefchar", "notdefrange", "codespacerange"}[k%7]
+			m := ref.GenCMap(rng, "Many")
+			m.UseCMap = ""
+			m.Blocks = []ref.MBlock{{Kind: "codespacerange", Entries: []ref.MEntry{{Lo: []byte{0, 0, 0}, Hi: []byte{0xff, 0xff, 0xff}}}, Declared: 1}}
+			code := 0
+			nBlocks := 656 + rng.IntN(12)
+			for bi := 0; bi < nBlocks; bi++ {
+				b := ref.MBlock{Kind: kind, Declared: 100}
+				for i := 0; i < 100; i++ {
+					e := ref.GenEntry(rng, kind)
+					lo := []byte{byte(code >> 16), byte(code >> 8), byte(code)}
+					e.Lo, e.Hi = lo, nil
+					if ref.IsRange(kind) {
+						e.Hi = []byte{lo[0], lo[1], lo[2] | 1}
+						if e.Dst.Kind == "arr" {
+							e.Dst = ref.MDst{Kind: "str", S: []byte{0, byte(i)}}
+						}
+					}
+					code += 2
+					b.Entries = append(b.Entries, e)
+				}
+				m.Blocks = append(m.Blocks, b)
+			}
+			file := ref.RenderFile(rng, []*ref.MCMap{m})
+			c.SetDetail(func() string {
+				return fmt.Sprintf("%d blocks of 100 %s entries, %d bytes; head: %q", nBlocks, kind, len(file), head(file, 1500))
+			})
+			c.Count("files with more than 65536 entries of one kind")
+			d, err := postscript.ReadCMap(bytes.NewReader(file))
+			if err != nil {
+				c.Violation("many-blocks|"+errClass(err), fmt.Sprintf("ReadCMap failed on a file in the standard form with %d blocks of 100 %s entries: %v", nBlocks, kind, err), "")
+				return
+			}
+			if diffs := compareCMap(d, m); len(diffs) > 0 {
+				c.Violation("many-blocks|"+strings.SplitN(diffs[0], " ", 2)[0], "returned CMap differs from the file:\n  "+joinLines(diffs[:min(5, len(diffs))]), "")
+			}
+			c.Runner().Count("mapping entries compared", int64(nBlocks*100))
+			c.Nontrivial([]byte(fmt.Sprintf("many|%s|%d", kind, nBlocks)), func() string { return fmt.Sprintf("%d blocks of 100 %s entries", nBlocks, kind) })
+		})
+	}
 	// full bfrange blocks with long array destinations (one array element per
 	// code of a one-byte span, up to 256)
 	for _, arrLen := range []int{1, 100, 150, 199, 200, 201, 256} {
